@@ -43,6 +43,8 @@ type Case struct {
 	File string          `json:"file"`
 	Edit neighbours.Edit `json:"edit"`
 	Src  string          `json:"src"`
+	// Files: further files of the package (package-shape family): XGo files and hand-written .go files
+	Files map[string]string `json:"files,omitempty"`
 }
 
 const dirEnv = "VERIF_C06_DIR"
@@ -75,7 +77,17 @@ const vdir = "/vprog"
 func evalInProcess(k Case) (o outcome) {
 	importers()
 	path := filepath.Join(vdir, k.File)
-	mfs := memfs.New(map[string][]string{vdir: {k.File}}, map[string]string{path: k.Src})
+	names, texts := []string{k.File}, map[string]string{path: k.Src}
+	var extra []string
+	for n := range k.Files {
+		extra = append(extra, n)
+	}
+	sort.Strings(extra)
+	for _, n := range extra {
+		names = append(names, n)
+		texts[filepath.Join(vdir, n)] = k.Files[n]
+	}
+	mfs := memfs.New(map[string][]string{vdir: names}, texts)
 	ctx := build.NewContext(imp, fset)
 	var pkg *build.Package
 	var err error
@@ -93,7 +105,11 @@ func evalInProcess(k Case) (o outcome) {
 	}
 	o.class = "success"
 	det := func(s string) string {
-		return fmt.Sprintf("seed=%s edit=%+v\nXGo source (%s):\n%s\n%s", k.Prog, k.Edit, k.File, k.Src, s)
+		more := ""
+		for _, n := range extra {
+			more += fmt.Sprintf("file %s:\n%s\n", n, k.Files[n])
+		}
+		return fmt.Sprintf("seed=%s edit=%+v\nXGo source (%s):\n%s\n%s%s", k.Prog, k.Edit, k.File, k.Src, more, s)
 	}
 	var out []byte
 	var werr error
@@ -127,7 +143,18 @@ func evalInProcess(k Case) (o outcome) {
 			}
 		}
 	}
-	tpanic := engine.Guard(func() { conf.Check(f.Name.Name, gofset, []*goast.File{f}, nil) })
+	gofiles := []*goast.File{f}
+	for _, n := range extra { // the hand-written Go files of a mixed package are compiled together with the generated file
+		if strings.HasSuffix(n, ".go") {
+			gf, gerr := goparser.ParseFile(gofset, n, k.Files[n], goparser.SkipObjectResolution)
+			if gerr != nil {
+				o.class = "excluded_go_file_does_not_parse"
+				return
+			}
+			gofiles = append(gofiles, gf)
+		}
+	}
+	tpanic := engine.Guard(func() { conf.Check(f.Name.Name, gofset, gofiles, nil) })
 	if tpanic != nil {
 		o.class = "excluded_gotypes_panic" // a go/types failure is not the subject's; left to the go build stage
 		o.goSrc = out
@@ -301,6 +328,69 @@ var rePkgClause = regexp.MustCompile(`(?m)^package main$`)
 
 func pkgDir(b, item int) string { return fmt.Sprintf("b%04d/m%05d", b, item) }
 
+// ---- package shapes: several files per package, XGo and hand-written Go mixed, with the entry point
+// in either kind of file, in none, or as top-level statements ----
+func packageShapes() []Case {
+	xgo := []struct{ name, src string }{
+		{"decls", "func fx() int {\n\treturn 1\n}\n"},
+		{"decls-using-go", "func fx() int {\n\treturn gy() + 1\n}\n"},
+		{"main-func", "func fx() int {\n\treturn 1\n}\n\nfunc main() {\n\techo fx()\n}\n"},
+		{"main-func-using-go", "func fx() int {\n\treturn 1\n}\n\nfunc main() {\n\techo fx() + gy()\n}\n"},
+		{"top-level-statements", "func fx() int {\n\treturn 1\n}\n\necho fx()\n"},
+		{"type-and-method", "type T struct {\n\tA int\n}\n\nfunc (t T) get() int {\n\treturn t.A\n}\n\nfunc fx() int {\n\treturn T{1}.get()\n}\n"},
+		{"init-only", "func fx() int {\n\treturn 1\n}\n\nfunc init() {\n\techo \"i\"\n}\n"},
+		{"var-only", "var vx = 5\n\nfunc fx() int {\n\treturn vx\n}\n"},
+	}
+	gof := []struct{ name, src string }{
+		{"none", ""},
+		{"helper", "func gy() int { return 2 }\n"},
+		{"main", "func gy() int { return 2 }\n\nfunc main() { println(gy()) }\n"},
+		{"main-using-xgo", "func gy() int { return 2 }\n\nfunc main() { println(fx() + gy()) }\n"},
+		{"init", "func gy() int { return 2 }\n\nfunc init() { println(\"gi\") }\n"},
+		{"type-and-method", "type G struct{}\n\nfunc (G) M() int { return 3 }\n\nfunc gy() int { return G{}.M() }\n"},
+		{"var-using-xgo", "var gv = fz0()\n\nfunc gy() int { return gv }\n"},
+	}
+	second := []struct{ name, src string }{
+		{"none", ""},
+		{"decls", "func fz() int {\n\treturn 3\n}\n"},
+		{"main-func", "func fz() int {\n\treturn 3\n}\n\nfunc main() {\n\techo fz()\n}\n"},
+		{"top-level-statements", "func fz() int {\n\treturn 3\n}\n\necho fz()\n"},
+	}
+	var out []Case
+	for _, pkg := range []string{"main", "foo"} {
+		for _, x := range xgo {
+			for _, g := range gof {
+				for _, s2 := range second {
+					for _, two := range []bool{false, true} { // the Go part in one or in two files
+						if two && g.name == "none" {
+							continue
+						}
+						clause := ""
+						if pkg != "main" {
+							clause = "package " + pkg + "\n\n"
+						}
+						files := map[string]string{}
+						if g.name != "none" {
+							if two {
+								files["b.go"] = "package " + pkg + "\n\nvar gw = 1\n"
+								files["c.go"] = "package " + pkg + "\n\n" + g.src
+							} else {
+								files["b.go"] = "package " + pkg + "\n\n" + g.src
+							}
+						}
+						if s2.name != "none" {
+							files["z.xgo"] = clause + s2.src
+						}
+						shape := fmt.Sprintf("package=%s xgo=%s go=%s second-xgo=%s go-files=%d", pkg, x.name, g.name, s2.name, len(files))
+						out = append(out, Case{Prog: "shape: " + shape, File: "a.xgo", Edit: neighbours.Edit{Kind: "package-shape"}, Src: clause + x.src + "\nfunc fz0() int {\n\treturn 4\n}\n", Files: files})
+					}
+				}
+			}
+		}
+	}
+	return out
+}
+
 func main() {
 	c := engine.New("C06", "exploration")
 	if c.IsReplay() {
@@ -359,7 +449,7 @@ func main() {
 		seen := map[[20]byte]bool{}
 		item, crashed := 0, 0
 		run := func(e neighbours.Edit, src string) {
-			k := Case{s.Name, s.File, e, src}
+			k := Case{s.Name, s.File, e, src, nil}
 			item++
 			if crashed >= nbrun.MaxCrashesPerBlock {
 				w.Hist("not_evaluated_block_abandoned")
@@ -401,12 +491,28 @@ func main() {
 		}
 		if b%20 == 0 && len(ms) > 0 {
 			m := ms[len(ms)/3]
-			w.Sample(Case{s.Name, s.File, m.Edit, m.Src})
+			w.Sample(Case{s.Name, s.File, m.Edit, m.Src, nil})
 		}
 	}
 	t0 := time.Now()
 	job.Run(c)
 	tWorkers := time.Since(t0)
+
+	// ---- package shapes (in-process, in this process: a few hundred small packages) ----
+	shapeOK := 0
+	for _, k := range packageShapes() {
+		o := evalInProcess(k)
+		c.Eval(1)
+		c.Hist("package_shape:"+o.class, 1)
+		if o.class == "success" {
+			shapeOK++
+			c.Nontrivial("shape:" + k.Prog)
+		}
+		if o.fail != nil {
+			c.Violate(k, o.fail)
+		}
+	}
+	c.Extra["package_shapes_compiled_and_type_checked_with_their_go_files"] = shapeOK
 
 	// ---- stage 4: go build of everything the in-process stages accepted ----
 	type viol struct {
